@@ -70,7 +70,7 @@ def generate(rng, tier):
     thorough = tier == "thorough"
     specs = specs_pool(rng, 30 if thorough else 8)
     shaped = 150 if thorough else 30
-    for k in range((500 if thorough else 120) + shaped):
+    for k in range((500 * TH if thorough else 120) + shaped):
         sp = rng.choice(specs)
         if k < shaped:
             # a known-size master around an unknown-size master with several children and followers: junk inside the inner one
@@ -113,7 +113,7 @@ def generate(rng, tier):
             scr = "-" if rng.random() < 0.7 else E.script_str(E.rand_script(rng, len(damaged)))
             cases.append(Case("R %s %s %s %s NtN" % (sp.s(), E.cfg_str(cap=rng.choice(["def", "def", "4", "16"])), scr, damaged.hex()), "junk", meta))
     # unconditional part
-    for k in range(4000 if thorough else 500):
+    for k in range(4000 * TH if thorough else 500):
         sp, data, kind, _ = gen_stream(rng, specs, big=False, p_valid=0.3, p_mut=0.5)
         ops = "".join(rng.choice(["n", "n", "n", "t", "N", "t"]) for _ in range(rng.randint(1, 12)))
         scr = rng.choice(["-", "-", E.script_str(E.rand_script(rng, len(data))), "3,e5,1000", "1,p,2,p,1000"])
